@@ -374,8 +374,9 @@ fn param_types(tier: Tier) -> Vec<PT> {
     let tys: &[ScalarType] = if tier == Tier::Quick { &[ScalarType::Integer, ScalarType::Real, ScalarType::Bit] } else { &[ScalarType::Integer, ScalarType::Real, ScalarType::Bit, ScalarType::Octet] };
     for ty in tys {
         for mutable in [false, true] {
-            for vec in [None, Some(None), Some(Some(2)), Some(Some(0))] {
-                if *ty == ScalarType::Bit && vec == Some(Some(0)) {
+            // T[1] is the boundary between a scalar and a vector (DECLARE's default length); T[0] only in the thorough tier
+            for vec in [None, Some(None), Some(Some(2)), Some(Some(1)), Some(Some(0))] {
+                if vec == Some(Some(0)) && (*ty == ScalarType::Bit || tier == Tier::Quick) {
                     continue;
                 }
                 v.push(PT { mutable, ty: *ty, vec });
@@ -642,7 +643,7 @@ pub static C31: PropDef = PropDef {
     id: "C31",
     level: "exploration",
     engine: "sweep",
-    rule: "every extern signature with optional return in {INTEGER, REAL} (roundtrip: all 4 scalar types) and <= 2 (roundtrip: <= 3) parameters over {scalar, T[], T[2], T[0]} x {mut, -} x 3-4 element types x parameter names {p, q2, Rr, aB-c, _x1}; signature -> text -> signature, PRAGMA EXTERN route, program-text route; every call with arity -1/0/+1 and 15 argument forms over regions k:INTEGER x:REAL v:INTEGER[2] w:INTEGER[3] bb:BIT[2] oo:OCTET[2] and an undeclared one, resolved by the real code vs the slot-fitting rules. non-trivial = call that resolves / signature with parameters",
+    rule: "every extern signature with optional return in {INTEGER, REAL} (roundtrip: all 4 scalar types) and <= 2 (roundtrip: <= 3) parameters over {scalar, T[], T[2], T[1], T[0] (thorough)} x {mut, -} x 3-4 element types x parameter names {p, q2, Rr, aB-c, _x1}; signature -> text -> signature, PRAGMA EXTERN route, program-text route; every call with arity -1/0/+1 and 15 argument forms over regions k:INTEGER x:REAL v:INTEGER[2] w:INTEGER[3] bb:BIT[2] oo:OCTET[2] and an undeclared one, resolved by the real code vs the slot-fitting rules. non-trivial = call that resolves / signature with parameters",
     assumptions: &["slot-fitting rules transcribed from the property statement (a bare region name in a scalar slot counts as a reference to its first cell)"],
     run: |ctx| {
         // signature roundtrips
